@@ -1,8 +1,9 @@
 From Coq Require Import Extraction ExtrOcamlBasic.
-From RV Require Import Base.Bytes Storage.Backend Storage.Header Storage.Window.
+From RV Require Import Base.Bytes Storage.Backend Storage.Header Storage.Window Storage.Protocol.
 Extraction Language OCaml.
 Extraction "../ocaml/gen/c01_model.ml"
   abs aop_of_write window_okb c_shape c_static c_uniform c_versions c_cow c_lens c_rr c_leaves c_new leaf_ok
   old_stat names_q first_is_q
   dP dQ dgod wgod wq next_hdr next_len hdrs pages setlens
-  recover select cks_ok ver slot_at slot_txid god flag hget bytes_eqb finalize_ok geom_ok len_valid.
+  recover select cks_ok ver slot_at slot_txid god flag hget bytes_eqb finalize_ok geom_ok len_valid
+  run_step recovery_run select_primary parse_hdr enc_hdr hm_god hm_slot cur_len a_start layout_at step_okb inv_b.
